@@ -146,6 +146,8 @@ def monitor_real_graders(ctx):
         alts = []
         for _ in range(n):
             d = {'expect': rng.choice(exps), 'grade_decimal': rng.choice([1, 1, 0.5, 0.25, 0]), 'msg': rng.choice(['', '', 'note', 'a longer note'])}
+            if rng.random() < 0.25:      # only `ok` written by the author: full default credit with ok=False / 'partial'
+                d = {'expect': d['expect'], 'ok': rng.choice([False, 'partial']), 'msg': rng.choice(['', '', 'note'])}
             alts.append(d)
         wrong = rng.choice(['', 'W1', 'W2 longer'])
         try:
